@@ -10,6 +10,7 @@ EXPLANATION = (
     "value inserted into a pool mapping has passed through deposit/swap_many/withdraw (never a bare new_empty()). R4 issuance/burn provenance: liquidity coins are "
     "multiply_frac(result of PoolState::deposit, share) and withdrawals burn exactly Σ of the liquidity coins consumed (shared with C15.R3d/R3w)."
     " R2 `preemptible`: a pool that becomes a built-in only under a TIP flag must receive unowned liquidity even when it already exists (recorded finding D19 for ERG/SYM). R5 tokens-only-from-deposits: a transaction kind that is exempt from the per-denomination balance check must not be free to name a Custom denomination in its outputs (recorded finding D21: Faucet). Imports C15.R6 (each pool processed once per block) and the activation table C06.R5."
+    " R2 `insert/Any/Key/present=>kept`: also for an insertion whose key is not a literal (built-ins listed in a table, created in a loop) — with pools.get(that key) present the insertion is unreachable; which pools such a loop creates is undecided, not a violation. Imports C01.R8 (the protocol's own trades against the built-in pools go through swap_many)."
 )
 NOT_DECIDED = ["non-zero reserves after arbitrary swap sequences and 'tokens in coins ≤ recorded liquidity' over histories (PoolState arithmetic in the trusted base; sums over histories)"]
 ASSUMPTIONS = ["PoolState::deposit(c, c) on an empty pool yields reserves (c, c) and c liquidity (melstructs 0.3.3)"]
@@ -43,6 +44,7 @@ def r2_create_builtins(ctx):
     t902 = [e for bi, e in q.call_exprs(b, "UnsealedState::tip_902")]
     retb = b.return_blocks()
     seen = set()
+    unreadable = []
     for bi, e in ins:
         k = sig(e[2][1])
         k = alt.get(k, k)
@@ -57,7 +59,12 @@ def r2_create_builtins(ctx):
                 f2_ = force(b, tbl_pre_)
                 r.check(bi not in f2_.reach, "insert/Any/Key/present=>kept", "present ⇒ not overwritten (key %s)" % k[:60],
                         "an existing pool is overwritten: with pools.get(key) present the insertion under that key is still reachable", where)
-            r.violation("insert/unexpected:" + k, "create_builtins inserts a pool under %s" % k, where)
+            if k.startswith("PoolKey::new(Denom::") and "elem(" not in k and "phi(" not in k:
+                r.violation("insert/unexpected:" + k, "create_builtins inserts a pool under %s" % k, where)
+            else:
+                # the key is not a literal pair of denominations (an element of a table, a parameter of a helper): which pools are created is not read
+                unreadable.append(k)
+                r.undecided("insert/unreadable-key", "create_builtins inserts a pool under %s: the key is not a literal PoolKey::new(a, b), which built-ins are created is not decided" % k[:80], where)
             continue
         seen.add(k)
         short = k.replace("PoolKey::new(Denom::", "").replace("{}, Denom::", "/").replace("{})", "")
@@ -109,7 +116,10 @@ def r2_create_builtins(ctx):
         r.check(len(d) == 1 and sig(d[0][1]) == "PoolState::new_empty()", "insert/%s/fresh" % short, "starts from new_empty()", "starts from %s" % [sig(x[1]) for x in d], where)
     for k in want:
         if k not in seen:
-            r.violation("missing:" + k, "create_builtins never creates %s" % k)
+            if unreadable:
+                r.undecided("missing:" + k, "no insertion under the literal key %s, but %d insertion(s) under keys that are not literals" % (k, len(unreadable)))
+            else:
+                r.violation("missing:" + k, "create_builtins never creates %s" % k)
 
 
 def r3_no_deletion(ctx):
